@@ -1,6 +1,3 @@
 package main
 
-// replaced as the session harness (shape 2/3) grows
-func runC14Replies(c *Ctx)  {}
-func runC09Protocol(c *Ctx) {}
-func runC16Timing(c *Ctx)   {}
+func runC16Timing(c *Ctx) {} // replaced by the timing harness
